@@ -20,7 +20,13 @@ RULE = ('random integer-weighted flux matrices, n = 1..9: (a) acyclic conserved 
         'matrix scaled by a power of two 2^-40..2^20 (exact in floating point: covers non-integer matrices and '
         'the 1e-9..1e-12 magnitudes of real MSM net fluxes); (d) near-tie family: fluxes B, B+1, B+2 with '
         'B ~ 1e6..1e7 (relative gap 1e-6..1e-7) on diamonds / shared prefixes / ladders / superposed flows; '
-        'a case is non-trivial when at least one pathway is returned; distinct by canonical input')
+        'audit families: net_flux as float32/int64/int32/uint8, C/F/strided/reversed views; index arguments as '
+        'list/int64/int32 array/tuple/Python or numpy scalar; num_paths as int/np.int64/np.int32/float/explicit inf; '
+        'positional call; remove_path as a callable (own pure, own in-place, the module helper); the same argument '
+        'objects passed twice; residuals of the module helpers fed forward; degenerate structures (adjacent '
+        'source/sink, disconnected sink, self-loops only, single state, all-equal weights, isolated states, '
+        'pendant); totals 2^k with the cut-off reached exactly; 256/257/300-state chain, fan and layered DAG '
+        '(oracle only); a case is non-trivial when at least one pathway is returned; distinct by canonical input')
 ASSUMPTIONS = [
     'float64/float32 arithmetic (compare, min, subtract) on integers times a power of two is exact, so the '
     'Nat model and the real code must agree exactly on paths and (rescaled) fluxes',
@@ -29,6 +35,11 @@ ASSUMPTIONS = [
     'compared against the model on both sides of the cut-off (tag cutoff-tie)',
     'dense ndarray input only, as documented by the code (scipy.sparse matrices/arrays make top_path raise '
     'ValueError inside np.where: not a supported container, not exercised)',
+    'for graphs with more than 12 states the widest-path oracle is threshold reachability (largest w such '
+    'that a sink is reachable through edges >= w), which equals the maximum over simple paths; the Lean model '
+    'is not run on the 256..300-state family (tag model-skipped-large-n)',
+    'np.matrix, list-of-lists matrices and sets of indices are not documented inputs: probed each run, they '
+    'raise (tags container-probe:*), no predicate is evaluated on them',
     'the oracle for "largest bottleneck of all source-to-sink paths" enumerates simple paths depth-first '
     'and only prunes branches whose running minimum cannot exceed the best found so far',
 ]
@@ -45,6 +56,8 @@ def best_bottleneck(R, S, T, prune=True):
     """max over all simple paths source->sink (length >= 1 edge) of the min edge weight; 0 if none.
     Exhaustive depth-first enumeration (with safe pruning)."""
     n = len(R)
+    if n > 12:
+        return best_bottleneck_threshold(R, S, T)
     Tset = set(T)
     best = 0
     adj = [[j for j in range(n) if R[i][j] > 0 and j != i] for i in range(n)]
@@ -67,6 +80,27 @@ def best_bottleneck(R, S, T, prune=True):
     for s in set(S):
         dfs(s, float('inf'), {s})
     return best
+
+
+def best_bottleneck_threshold(R, S, T):
+    """large graphs (n > 12), where enumerating simple paths is infeasible: the largest w such that a
+    sink other than the start is reachable from a source through edges of weight >= w (equal to the
+    maximum over simple paths of the minimum edge; independent of the Dijkstra-style search)"""
+    n = len(R)
+    Tset = set(T)
+    adj = [[(j, R[i][j]) for j in range(n) if R[i][j] > 0 and j != i] for i in range(n)]
+    for w in sorted({x for row in adj for _, x in row}, reverse=True):
+        for s in set(S):
+            seen, stack = {s}, [s]
+            while stack:
+                u = stack.pop()
+                for v, x in adj[u]:
+                    if x >= w and v not in seen:
+                        if v in Tset:
+                            return w
+                        seen.add(v)
+                        stack.append(v)
+    return 0
 
 
 def check_sequence(F, S, T, scheme, paths, fluxes):
@@ -122,21 +156,117 @@ def check_sequence(F, S, T, scheme, paths, fluxes):
 
 # ----------------------------------------------------------------------------- real code
 
-def call_real(case, what):
-    """returns (result dict, mutated flag)"""
-    from enspara import tpt
-    F = np.array(case['flux'], dtype=case.get('dtype', 'float64'), order=case.get('order', 'C'))
-    if F.ndim != 2:
-        F = F.reshape((len(case['flux']), len(case['flux'])))
+INT_DTYPES = ('int64', 'int32', 'uint8')
+
+
+def build_matrix(case):
+    dtype = case.get('dtype', 'float64')
+    order = case.get('order', 'C')
     scale = case.get('scale', 1.0)          # a power of two: scaling is exact in floating point
-    if scale != 1.0:
-        F = np.asarray(F * F.dtype.type(scale), dtype=F.dtype, order=case.get('order', 'C'))
+    A = np.array(case['flux'], dtype='float64')
+    n = len(case['flux'])
+    if A.ndim != 2:
+        A = A.reshape((n, n))
+    A = A * scale
+    if order == 'strided':                  # non-contiguous view into a larger buffer
+        big = np.full((2 * n, 2 * n), 7, dtype=dtype)
+        big[::2, ::2] = A.astype(dtype)
+        return big[::2, ::2]
+    if order == 'reversed':                 # negative strides
+        return np.ascontiguousarray(A[::-1, ::-1]).astype(dtype)[::-1, ::-1]
+    return np.array(A, dtype=dtype, order=order)
+
+
+def conv_index(kind, xs):
+    if kind == 'array':
+        return np.array(xs, dtype=int)
+    if kind == 'int32':
+        return np.array(xs, dtype=np.int32)
+    if kind == 'tuple':
+        return tuple(xs)
+    if kind == 'scalar' and len(xs) == 1:
+        return int(xs[0])
+    if kind == 'npscalar' and len(xs) == 1:
+        return np.int64(xs[0])
+    return list(xs)
+
+
+def index_snapshot(x):
+    return [int(v) for v in np.array(x, dtype=int).reshape(-1)]
+
+
+def own_remover(scheme, inplace):
+    """remove_path callables written here (not the module's): the two documented schemes"""
+    def rem(net_flux, path):
+        M = net_flux if inplace else np.array(net_flux, copy=True)
+        vals = M[path[:-1], path[1:]]
+        k = int(np.argmin(vals))
+        if scheme == 'subtract':
+            M[path[:-1], path[1:]] = vals - vals.min()
+        M[path[k], path[k + 1]] = 0
+        return M
+    return rem
+
+
+def helper_chain(case, S, T, F):
+    """class 5: feed every residual returned by the module's own removal helper into the next
+    top_path call (what paths() does), checking that a helper neither changes nor aliases its input"""
+    from enspara import tpt
+    from enspara.tpt import path as P
+    helper = P._subtract_path_flux if case['scheme'] == 'subtract' else P._remove_bottleneck
+    ps, fs, alias = [], [], None
+    M = F
+    for _ in range(len(case['flux']) ** 2 + 2):
+        p, f = tpt.top_path(S, T, M)
+        if np.isinf(f):
+            break
+        ps.append(p)
+        fs.append(f)
+        snap = M.tobytes()
+        M2 = helper(M, p)
+        if M.tobytes() != snap:
+            alias = 'removal helper modified the matrix it was given'
+        elif np.shares_memory(M2, M):
+            alias = 'removal helper returned a matrix aliasing its argument'
+        M = M2
+    return ps, np.array(fs, dtype=float), alias
+
+
+class RealCodeTimeout(Exception):
+    pass
+
+
+def _on_vtalrm(signum, frame):
+    raise RealCodeTimeout()
+
+
+CPU_LIMIT_S = 20        # CPU seconds for one real call (the slowest legitimate case needs < 5 s)
+
+
+def call_real(case, what):
+    """returns (result dict, mutated flag); a call that burns more than CPU_LIMIT_S of CPU time (a
+    back-pointer walk that never ends, say) is reported instead of hanging the check"""
+    import signal
+    old = signal.signal(signal.SIGVTALRM, _on_vtalrm)
+    signal.setitimer(signal.ITIMER_VIRTUAL, CPU_LIMIT_S)
+    try:
+        return _call_real(case, what)
+    except RealCodeTimeout:
+        return {'timeout': True}, False
+    finally:
+        signal.setitimer(signal.ITIMER_VIRTUAL, 0)
+        signal.signal(signal.SIGVTALRM, old)
+
+
+def _call_real(case, what):
+    from enspara import tpt
+    F = build_matrix(case)
+    scale = case.get('scale', 1.0)
     cont = case.get('container', 'list')
-    conv = {'list': list, 'array': lambda x: np.array(x, dtype=int), 'tuple': tuple}[cont]
-    S, T = conv(case['sources']), conv(case['sinks'])
+    S, T = conv_index(cont, case['sources']), conv_index(cont, case['sinks'])
     snapF = F.tobytes()
     snapS, snapT = list(case['sources']), list(case['sinks'])
-    kw = {}
+    extra = None
     try:
         with np.errstate(all='ignore'):
             if what == 'top_path':
@@ -144,25 +274,62 @@ def call_real(case, what):
                 f = float(f) / scale
                 res = {'ok': {'path': [int(x) for x in p],
                               'flux': 'inf' if f == float('inf') else '-inf' if f == float('-inf') else f}}
+            elif case.get('via') == 'helpers':
+                ps, fs, extra = helper_chain(case, S, T, F)
+                res = {'ok': [{'path': [int(x) for x in p], 'flux': float(f) / scale} for p, f in zip(ps, fs)]}
             else:
-                kw['remove_path'] = case['scheme']
-                if case['num_paths'] is not None:
-                    kw['num_paths'] = case['num_paths']
-                if case['cutoff'] is not None:
-                    kw['flux_cutoff'] = case['cutoff']
-                ps, fs = tpt.paths(S, T, F, **kw)
+                cal = case.get('callable')
+                if cal == 'own':
+                    rp = own_remover(case['scheme'], False)
+                elif cal == 'inplace':
+                    rp = own_remover(case['scheme'], True)
+                elif cal == 'module':
+                    from enspara.tpt import path as P
+                    rp = P._subtract_path_flux if case['scheme'] == 'subtract' else P._remove_bottleneck
+                else:
+                    rp = case['scheme']
+                npk = case.get('np_kind', 'py')
+                npv = case['num_paths']
+                if npv is not None:
+                    npv = {'py': int, 'npint': np.int64, 'npint32': np.int32, 'float': float}[npk](npv)
+                elif npk == 'inf-explicit':
+                    npv = float('inf')
+                if case.get('positional'):
+                    args = [rp, np.inf if npv is None else npv]
+                    if case['cutoff'] is not None:
+                        args.append(case['cutoff'])
+                    call = lambda: tpt.paths(S, T, F, *args)       # noqa: E731
+                else:
+                    kw = {'remove_path': rp}
+                    if npv is not None:
+                        kw['num_paths'] = npv
+                    if case['cutoff'] is not None:
+                        kw['flux_cutoff'] = case['cutoff']
+                    call = lambda: tpt.paths(S, T, F, **kw)        # noqa: E731
+                ps, fs = call()
                 if not isinstance(fs, np.ndarray) or fs.ndim != 1 or len(fs) != len(ps):
                     res = {'shape-error': 'fluxes %r for %d paths' % (fs, len(ps))}
                 else:
                     res = {'ok': [{'path': [int(x) for x in p], 'flux': float(f) / scale}
                                   for p, f in zip(ps, fs)]}
+                    if case.get('twice'):
+                        # same argument objects again: nothing may have been carried over
+                        ps2, fs2 = call()
+                        res2 = [{'path': [int(x) for x in p], 'flux': float(f) / scale} for p, f in zip(ps2, fs2)]
+                        if res2 != res['ok']:
+                            extra = 'a second call with the same argument objects returned %r, the first %r' % (
+                                res2, res['ok'])
+    except RealCodeTimeout:
+        raise
     except IndexError:
         res = {'error': 'index-error'}
     except ValueError:
         res = {'error': 'value-error'}
     except Exception as e:  # noqa
         res = {'error': type(e).__name__}
-    mutated = (F.tobytes() != snapF or [int(x) for x in S] != snapS or [int(x) for x in T] != snapT)
+    mutated = (F.tobytes() != snapF or index_snapshot(S) != snapS or index_snapshot(T) != snapT)
+    if extra:
+        res['extra'] = extra
     return res, mutated
 
 
@@ -184,7 +351,7 @@ def model_req(case, what, cutoff=None):
 def canon_real(res):
     """integer-valued floats -> ints, so that the comparison with the Nat model is exact"""
     if 'ok' not in res:
-        return res
+        return {k: v for k, v in res.items() if k != 'extra'}
     def cf(f):
         if isinstance(f, float) and f == int(f):
             return int(f)
@@ -205,6 +372,12 @@ def tags_of(case):
               'cutoff=' + ('default' if case['cutoff'] is None else repr(case['cutoff']))]
     t += ['dtype=' + case.get('dtype', 'float64'), 'order=' + case.get('order', 'C'),
           'container=' + case.get('container', 'list'), 'scale=%g' % case.get('scale', 1.0)]
+    for k in ('np_kind', 'callable', 'via', 'family'):
+        if case.get(k):
+            t.append('%s=%s' % (k, case[k]))
+    for k in ('positional', 'twice', 'nomodel'):
+        if case.get(k):
+            t.append(k if k != 'nomodel' else 'model-skipped-large-n')
     return t
 
 
@@ -219,6 +392,9 @@ def check_top_path(ctx, case, mresp):
     F, S, T = case['flux'], case['sources'], case['sinks']
     nontrivial = 'ok' in real and isinstance(real['ok']['flux'], int)
     ctx.case(case, nontrivial=nontrivial, tags=tags_of(case) + ['what=top_path'])
+    if real.get('timeout'):
+        ctx.violation('top_path did not return within %d s of CPU time' % CPU_LIMIT_S, case)
+        return
     if mutated:
         ctx.violation('top_path modified its arguments', case)
         return
@@ -250,7 +426,7 @@ def check_top_path(ctx, case, mresp):
         else:
             ctx.violation('top_path returned a non-integral flux %r on an integer matrix' % (f,), case)
             return
-    if mresp != real:
+    if mresp is not None and mresp != real:
         ctx.disagreement('Ens.Paths.topPath vs tpt.top_path', dict(case, model=mresp, impl=real))
 
 
@@ -259,8 +435,8 @@ def explained_tie(case, seqs):
     c = case['cutoff'] if case['cutoff'] is not None else DEFAULT_CUTOFF
     S = case['sources']
     tot = sum(sum(case['flux'][s]) for s in S)       # with multiplicity, as the code sums
-    if tot == 0:
-        return False
+    if tot == 0 or (tot & (tot - 1)) == 0:
+        return False                      # flux / 2^k and its partial sums are exact in floating point
     cF = Fraction(c)
     for seq in seqs:
         acc = Fraction(0)
@@ -276,6 +452,7 @@ def explained_tie(case, seqs):
 def check_paths(ctx, case, mresp, second=None):
     """second: callable giving model responses for other cut-offs (tie handling)"""
     real, mutated = call_real(case, 'paths')
+    extra = real.get('extra')
     real = canon_real(real)
     F, S, T = case['flux'], case['sources'], case['sinks']
     scheme, num_paths = case['scheme'], case['num_paths']
@@ -285,6 +462,12 @@ def check_paths(ctx, case, mresp, second=None):
         npaths if npaths < 6 else '6+')])
     if mutated:
         ctx.violation("paths modified the caller's flux matrix / source / sink arguments", case)
+        return
+    if real.get('timeout'):
+        ctx.violation('paths did not return within %d s of CPU time' % CPU_LIMIT_S, case)
+        return
+    if extra:
+        ctx.violation('paths: ' + extra, case)
         return
     if 'shape-error' in real:
         ctx.violation('paths: ' + real['shape-error'], case)
@@ -332,7 +515,7 @@ def check_paths(ctx, case, mresp, second=None):
                 return
             ctx.tag('fraction-reached')
     # model vs implementation
-    if mresp == real:
+    if mresp is None or mresp == real:
         return
     if 'ok' in real and 'ok' in mresp and explained_tie(case, [real['ok'], mresp['ok']]) and second:
         alts = second(case)
@@ -451,22 +634,176 @@ NUM_PATHS = [None, None, None, 1, 2, 3, 5, 0]
 CUTOFFS = [None, None, None, 0.0, 0.25, 0.37, 0.5, 0.9, 1.0, 2.0]
 
 
+def pick_variant(rng, base, dtype=None):
+    """dtype / memory layout / index-container variety of every argument (audit class 2)"""
+    dt = dtype or str(rng.choice(['float64', 'float64', 'float64', 'float32', 'int64', 'int32', 'uint8']))
+    scale = float(rng.choice(SCALES))
+    if dt in INT_DTYPES:
+        scale = float(rng.choice([1.0, 1.0, 4.0, 2.0 ** 20]))
+        mx = max([max(r) for r in base['flux']] or [0])
+        if dt == 'uint8' and mx * scale > 255:
+            scale = 1.0
+            if mx > 255:
+                dt = 'int64'
+        if dt == 'int32' and mx * scale >= 2 ** 31:
+            dt = 'int64'
+    return {'dtype': dt,
+            'order': str(rng.choice(['C', 'C', 'F', 'strided', 'reversed'])),
+            'container': str(rng.choice(['list', 'array', 'tuple', 'int32', 'scalar', 'npscalar'])),
+            'scale': scale}
+
+
 def settings(rng, base, dtype=None):
-    """the paths() calls made for one graph"""
+    """the paths() / top_path() calls made for one graph"""
     out = []
-    variant = {'dtype': dtype or str(rng.choice(['float64', 'float64', 'float32'])),
-               'order': str(rng.choice(['C', 'C', 'F'])),
-               'container': str(rng.choice(['list', 'array', 'tuple'])),
-               'scale': float(rng.choice(SCALES))}
+    variant = pick_variant(rng, base, dtype)
     for scheme in ('subtract', 'bottleneck'):
         # run to exhaustion
-        out.append(dict(base, what='paths', scheme=scheme, num_paths=None,
-                        cutoff=[None, 2.0, 1.0][int(rng.integers(0, 3))], **variant))
-        out.append(dict(base, what='paths', scheme=scheme,
-                        num_paths=NUM_PATHS[int(rng.integers(0, len(NUM_PATHS)))],
-                        cutoff=CUTOFFS[int(rng.integers(0, len(CUTOFFS)))], **variant))
+        c = dict(base, what='paths', scheme=scheme, num_paths=None,
+                 cutoff=[None, 2.0, 1.0][int(rng.integers(0, 3))], **variant)
+        if rng.random() < 0.2:
+            c['np_kind'] = 'inf-explicit'
+        out.append(c)
+        c = dict(base, what='paths', scheme=scheme,
+                 num_paths=NUM_PATHS[int(rng.integers(0, len(NUM_PATHS)))],
+                 cutoff=CUTOFFS[int(rng.integers(0, len(CUTOFFS)))], **variant)
+        if c['num_paths'] is not None:
+            c['np_kind'] = str(rng.choice(['py', 'py', 'npint', 'npint32', 'float']))
+        out.append(c)
+    # configuration / call-history corners on one of the calls (audit classes 5 and 6)
+    r = rng.random()
+    k = int(rng.integers(0, 4))
+    if r < 0.15:
+        out[k]['callable'] = str(rng.choice(['own', 'inplace', 'module']))
+    elif r < 0.30:
+        out[k]['twice'] = True
+    elif r < 0.45:
+        out[k]['positional'] = True
+    elif r < 0.60:
+        out.append(dict(base, what='paths', scheme=str(rng.choice(['subtract', 'bottleneck'])), num_paths=None,
+                        cutoff=2.0, via='helpers', **variant))
     out.append(dict(base, what='top_path', **variant))
     return out
+
+
+def gen_structure(rng):
+    """degenerate structures (audit class 4)"""
+    k = int(rng.integers(0, 8))
+    w = int(rng.integers(1, 9))
+    if k == 0:      # source adjacent to sink, nothing else
+        base = {'flux': [[0, w], [0, 0]], 'sources': [0], 'sinks': [1], 'kind': 'conserved'}
+    elif k == 1:    # direct edge competing with a two-step route
+        v = int(rng.integers(1, 9))
+        base = {'flux': [[0, v, w], [0, 0, v], [0, 0, 0]], 'sources': [0], 'sinks': [2], 'kind': 'conserved'}
+    elif k == 2:    # one of several sinks is disconnected (listed first or last)
+        F = [[0, w, 0, 0], [0, 0, w, 0], [0, 0, 0, 0], [0, 0, 0, 0]]
+        base = {'flux': F, 'sources': [0], 'sinks': [3, 2] if rng.random() < 0.5 else [2, 3], 'kind': 'conserved'}
+    elif k == 3:    # self-loops only
+        n = int(rng.integers(1, 5))
+        F = [[w if i == j else 0 for j in range(n)] for i in range(n)]
+        base = {'flux': F, 'sources': [0], 'sinks': [n - 1], 'kind': 'degenerate'}
+    elif k == 4:    # a single state
+        base = {'flux': [[int(rng.integers(0, 3))]], 'sources': [0], 'sinks': [0] if rng.random() < 0.7 else [],
+                'kind': 'degenerate'}
+    elif k == 5:    # all weights equal on a complete digraph: every comparison is a tie
+        n = int(rng.integers(3, 7))
+        F = [[w if i != j else 0 for j in range(n)] for i in range(n)]
+        base = {'flux': F, 'sources': [0], 'sinks': [n - 1], 'kind': 'digraph'}
+    elif k == 6:    # isolated states and zero rows around one chain
+        n = 6
+        F = [[0] * n for _ in range(n)]
+        F[1][3], F[3][4] = w, w + 1
+        base = {'flux': F, 'sources': [1, 0], 'sinks': [4, 5], 'kind': 'conserved'}
+    else:           # pendant state: a dead end next to the only route
+        F = [[0, w, w, 0], [0, 0, 0, 0], [0, 0, 0, w], [0, 0, 0, 0]]
+        base = {'flux': F, 'sources': [0], 'sinks': [3], 'kind': 'digraph'}
+    base['family'] = 'structure-%d' % k
+    return base
+
+
+def gen_exact_cutoff(rng):
+    """total outflow a power of two, cut-off j / total: `expl_flux >= flux_cutoff` is reached EXACTLY
+    (all the float arithmetic involved is exact), so the tie tolerance does not apply (audit class 6)"""
+    tot = int(rng.choice([4, 8, 16, 32]))
+    m = int(rng.integers(1, min(tot, 6) + 1))
+    cuts = sorted(int(x) for x in rng.choice(np.arange(1, tot), size=m - 1, replace=False)) if m > 1 else []
+    parts = [b - a for a, b in zip([0] + cuts, cuts + [tot])]
+    it = iter(parts)
+    base = None
+    for _ in range(20):
+        it = iter(parts)
+        base = gen_conserved(rng, nmax=7, weight=lambda: next(it, 0))
+        if sum(sum(base['flux'][s]) for s in base['sources']) == tot:
+            break
+    else:
+        base = {'kind': 'conserved', 'flux': [[0, tot], [0, 0]], 'sources': [0], 'sinks': [1]}
+    base['family'] = 'exact-cutoff'
+    j = int(rng.integers(1, tot + 1))
+    return base, j / tot
+
+
+def gen_large(rng, thorough):
+    """more than 255 states (audit class 1); the Lean model is not run on these (it takes minutes):
+    oracle-only, with the threshold-reachability form of the widest-path oracle"""
+    n = int(rng.choice([256, 257, 300]))
+    k = int(rng.integers(0, 3))
+    F = [[0] * n for _ in range(n)]
+    order = [int(x) for x in rng.permutation(n)]
+    if k == 0:      # one long chain through every state, plus shortcuts of smaller weight
+        for a, b in zip(order[:-1], order[1:]):
+            F[a][b] = int(rng.integers(5, 9))
+        for i in range(0, n - 4, 11):
+            F[order[i]][order[i + 3]] = int(rng.integers(1, 4))
+        base = {'flux': F, 'sources': [order[0]], 'sinks': [order[-1]], 'kind': 'digraph', 'family': 'large-chain'}
+        npaths = [None, 2]
+    elif k == 1:    # one wide fan
+        s, t = order[0], order[-1]
+        for v in order[1:-1]:
+            w = int(rng.integers(1, 50))
+            F[s][v], F[v][t] = w, w
+        base = {'flux': F, 'sources': [s], 'sinks': [t], 'kind': 'conserved', 'family': 'large-fan'}
+        npaths = [3, 6] if not thorough else [3, 40]
+    else:           # sparse layered DAG with several sources and sinks
+        for i, a in enumerate(order[:-1]):
+            for _ in range(int(rng.integers(1, 3))):
+                b = order[int(rng.integers(i + 1, min(n, i + 12)))]
+                F[a][b] = int(rng.integers(1, 30))
+        base = {'flux': F, 'sources': order[:2], 'sinks': order[-2:], 'kind': 'digraph', 'family': 'large-dag'}
+        npaths = [2, 5]
+    out = []
+    variant = {'dtype': str(rng.choice(['float64', 'float32', 'int64'])), 'order': 'C',
+               'container': str(rng.choice(['list', 'array', 'int32'])), 'scale': 1.0}
+    for scheme in ('subtract', 'bottleneck'):
+        out.append(dict(base, what='paths', scheme=scheme, num_paths=npaths[int(rng.integers(0, 2))],
+                        cutoff=None, nomodel=True, **variant))
+    out.append(dict(base, what='top_path', nomodel=True, **variant))
+    return out
+
+
+def probe_unsupported(ctx):
+    """containers the code does not document (np.matrix, list of lists, sets of indices): they must not
+    silently return a wrong decomposition; raising is fine (outside the property's quantifier)"""
+    from enspara import tpt
+    base = FIXED[1]
+    F = np.array(base['flux'], dtype=float)
+    want = None
+    for name, call in (('ndarray', lambda: tpt.paths(base['sources'], base['sinks'], F)),
+                       ('np.matrix', lambda: tpt.paths(base['sources'], base['sinks'], np.matrix(F))),
+                       ('list-of-lists', lambda: tpt.paths(base['sources'], base['sinks'], F.tolist())),
+                       ('set-indices', lambda: tpt.paths(set(base['sources']), set(base['sinks']), F))):
+        try:
+            with np.errstate(all='ignore'):
+                ps, fs = call()
+            got = ([[int(x) for x in p] for p in ps], [float(f) for f in fs])
+            if want is None:
+                want = got
+            ctx.tag('container-probe:%s=ok' % name)
+            if got != want:
+                ctx.violation('paths on a %s returns %r, on the ndarray %r' % (name, got, want),
+                              dict(base, what='paths', scheme='subtract', num_paths=None, cutoff=None,
+                                   probe=name))
+        except Exception as e:  # noqa
+            ctx.tag('container-probe:%s=raises-%s' % (name, type(e).__name__))
 
 
 # ----------------------------------------------------------------------------- entry points
@@ -480,7 +817,9 @@ def tie_alternatives(ctx):
 
 
 def run_cases(ctx, cases):
-    resp = ctx.driver([model_req(c, c['what']) for c in cases])
+    withm = [c for c in cases if not c.get('nomodel')]
+    answers = iter(ctx.driver([model_req(c, c['what']) for c in withm]))
+    resp = [None if c.get('nomodel') else next(answers) for c in cases]
     second = tie_alternatives(ctx)
     for c, r in zip(cases, resp):
         if c['what'] == 'top_path':
@@ -513,7 +852,7 @@ def run(ctx):
             for npth in (None, 1, 2):
                 cases.append(dict(base, what='paths', scheme=scheme, num_paths=npth, cutoff=None))
         cases.append(dict(base, what='top_path'))
-    ng = ctx.n(1500, 20000)
+    ng = ctx.n(1000, 20000)
     for g in range(ng):
         r = rng.random()
         if r < 0.40:
@@ -523,7 +862,7 @@ def run(ctx):
         else:
             base = gen_degenerate(rng)
         cases += settings(rng, base)
-    nt = ctx.n(300, 4000)
+    nt = ctx.n(200, 4000)
     for g in range(nt):
         cases += settings(rng, gen_neartie(rng), dtype='float64')
     # the F16 diamond and the upstream graph at MSM-like magnitudes (1e-9 .. 1e-12)
@@ -531,13 +870,24 @@ def run(ctx):
         for sc in (2.0 ** -30, 2.0 ** -40):
             for scheme in ('subtract', 'bottleneck'):
                 cases.append(dict(base, what='paths', scheme=scheme, num_paths=None, cutoff=None, scale=sc))
+    # audit families: degenerate structure, exactly reached cut-offs, > 255 states
+    for g in range(ctx.n(60, 1500)):
+        cases += settings(rng, gen_structure(rng))
+    for g in range(ctx.n(60, 1500)):
+        base, cut = gen_exact_cutoff(rng)
+        for scheme in ('subtract', 'bottleneck'):
+            cases.append(dict(base, what='paths', scheme=scheme, num_paths=None, cutoff=cut,
+                              **pick_variant(rng, base)))
+    for g in range(ctx.n(3, 30)):
+        cases += gen_large(rng, ctx.thorough)
+    probe_unsupported(ctx)
     run_cases(ctx, cases)
     ctx.note('graphs', ng + nt + len(FIXED))
 
 
 def replay(ctx, data):
     case = {k: v for k, v in data.items() if k not in ('model', 'impl')}
-    r = ctx.driver([model_req(case, case['what'])])[0]
+    r = None if case.get('nomodel') else ctx.driver([model_req(case, case['what'])])[0]
     if case['what'] == 'top_path':
         check_top_path(ctx, case, r)
     else:
